@@ -1043,6 +1043,109 @@ def _chan_measure(acc, cell):
     acc.emit("measure random", nontrivial=True, outcome="measure:random")
 
 
+ND_TOLS = (None, 1e-9, 1e-6, 1e-3)  # None = the documented default 1e-12
+ND_FACTORS = (0.1, 10.0, 1e3, 2e6)  # splitting / tol: <= 1/10 must be grouped, >= 10 must be resolved
+
+
+def _chan_neardeg(acc, cell):
+    """projector / measure on observables with NEARLY degenerate levels at a
+    splitting of tol/10 (must be grouped) or >= 10 tol (must be resolved), for
+    the documented default tol and explicit values.  Eigenvector conditioning:
+    an operator whose eigenbasis is generic is only used for splittings >= 1e-6
+    (mixing 1e-16 / splitting); smaller splittings use an exactly diagonal
+    operator and the pre-diagonalised tuple form (el, ev), where no
+    eigen-solver is involved."""
+    qu = _qu()
+    D = int(cell["D"])
+    tol = ND_TOLS[int(cell["tol"])]
+    teff = 1e-12 if tol is None else tol
+    sep = teff * ND_FACTORS[int(cell["f"])]
+    grouped = sep < teff
+    lam = np.array(([1.0, 1.0 + sep, -0.5, -0.5 - 1.5 * sep, 40.0, 40.0 + sep] + [3.0 + k for k in range(max(0, D - 6))])[:D])
+    U = fill("unitary", (D, D), "complex128", key=("c20", "neardeg", D))
+    kw = {} if tol is None else {"tol": tol}
+    psi = _nket(_g((D,), ("neardeg", "psi", D)))
+    rho = _full(D, ("neardeg", "rho", D))
+    variants = [("op-diag", np.eye(D, dtype=complex), 1e-9), ("tuple", U, 1e-9)]
+    if sep >= 1e-6:
+        variants.append(("op-generic", U, 1e-6))
+    for vname, V, cmp_tol in variants:
+        A = (V * lam) @ V.conj().T
+        A = (A + A.conj().T) / 2
+        if vname == "tuple":
+            aobj = lambda: (lam.copy(), qu.qarray(V))
+            targets = list(lam)
+        else:
+            aobj = lambda: qu.qarray(A)
+            targets = list(lam) if vname == "op-diag" else list(np.linalg.eigvalsh(A))
+        for ti, l in enumerate(targets):
+            sel = np.abs(lam - lam[int(np.argmin(np.abs(lam - l)))]) < teff if vname == "op-generic" else np.abs(lam - l) < teff
+            P = (V[:, sel]) @ V[:, sel].conj().T
+            rank = int(sel.sum())
+            sig = dict(form=vname, spectrum="near-degenerate", grouped=grouped, tol="default" if tol is None else "explicit")
+            sub = "projector|%s|level %d" % (vname, ti)
+            okc, got = acc.call(sub, "projector", lambda: qu.projector(aobj(), eigenvalue=l, **kw), **sig)
+            if okc:
+                g = _dense(got)
+                tr = float(np.real(np.trace(g)))
+                if g.shape != P.shape:
+                    acc.bad(sub, "projector", "shape", "shape %s" % (g.shape,), **sig)
+                elif abs(tr - rank) > 1e-6:
+                    acc.bad(sub, "projector", "rank", "trace %.9g, expected rank %d (levels %s, target %.17g, tol %g, splitting %g)" % (tr, rank, lam.tolist(), l, teff, sep), **sig)
+                elif float(np.max(np.abs(g @ g - g))) > cmp_tol or float(np.max(np.abs(g - g.conj().T))) > cmp_tol:
+                    acc.bad(sub, "projector", "idempotence", "P is not a Hermitian idempotent", **sig)
+                elif float(np.max(np.abs(g - P))) > cmp_tol:
+                    acc.bad(sub, "projector", "mismatch", "max abs err %.3g vs sum of |v><v| over |el - eigenvalue| < tol" % float(np.max(np.abs(g - P))), **sig)
+                else:
+                    acc.n += 1
+            for f, x in (("ket", psi), ("dop", rho)):
+                isk = f == "ket"
+                prob = float(np.real((x.conj().T @ P @ x)[0, 0])) if isk else float(np.real(np.trace(P @ x)))
+                if prob < 1e-3:
+                    continue
+                exp = P @ x / np.sqrt(prob) if isk else P @ x @ P / prob
+                sub = "measure|%s|%s|level %d" % (f, vname, ti)
+                okc, out = acc.call(sub, "measure", lambda: qu.measure(_as(x, f), aobj(), eigenvalue=l, **kw), **sig)
+                if not okc:
+                    continue
+                res, post = out
+                post = _dense(post)
+                nrm = float(np.linalg.norm(post)) if isk else float(np.real(np.trace(post)))
+                if abs(res - l) > 1e-12:
+                    acc.bad(sub, "measure", "eigenvalue", "returned %r, asked for %r" % (res, l), **sig)
+                elif abs(nrm - 1) > cmp_tol:
+                    acc.bad(sub, "measure", "normalisation", "post-measurement state has norm/trace %.9g (collapse probability %.6g, rank %d)" % (nrm, prob, rank), **sig)
+                elif post.shape != exp.shape or float(np.max(np.abs(post - exp))) > 10 * cmp_tol:
+                    acc.bad(sub, "measure", "mismatch", "post-measurement state differs from P x P / prob by %.3g" % float(np.max(np.abs(post - exp))), **sig)
+                else:
+                    acc.n += 1
+        # random outcomes: whichever level is drawn, the state is the normalised projection onto ITS window
+        if vname != "op-generic":
+            for sd in range(3):
+                np.random.seed(31 * D + sd)
+                sub = "measure|ket|%s|random seed=%d" % (vname, sd)
+                sig = dict(form=vname, spectrum="near-degenerate", grouped=grouped, tol="default" if tol is None else "explicit", opt="random")
+                okc, out = acc.call(sub, "measure", lambda: qu.measure(_as(psi, "ket"), aobj(), **kw), **sig)
+                if not okc:
+                    continue
+                res, post = out
+                post = _dense(post)
+                if float(np.min(np.abs(lam - res))) > 0:
+                    acc.bad(sub, "measure", "eigenvalue", "random result %r is not one of the levels" % (res,), **sig)
+                    continue
+                sel = np.abs(lam - res) < teff
+                P = V[:, sel] @ V[:, sel].conj().T
+                prob = float(np.real((psi.conj().T @ P @ psi)[0, 0]))
+                if abs(np.linalg.norm(post) - 1) > 1e-9:
+                    acc.bad(sub, "measure", "normalisation", "random outcome %r: post-measurement ket has norm %.9g" % (res, float(np.linalg.norm(post))), **sig)
+                elif float(np.max(np.abs(post - P @ psi / np.sqrt(prob)))) > 1e-8:
+                    acc.bad(sub, "measure", "mismatch", "random outcome %r: collapsed state wrong" % (res,), **sig)
+                else:
+                    acc.n += 1
+        acc.emit("neardeg %s" % vname, nontrivial=True, outcome="neardeg:%s:%s" % (vname, "grouped" if grouped else "resolved"))
+
+
+
 def _digits(i, base, n):
     out = []
     for _ in range(n):
@@ -1140,7 +1243,7 @@ def _chan_dephase(acc, cell):
 def chan_cell(cell, common):
     t = cell["t"]
     acc = _Acc(" ".join("%s=%s" % (k, cell[k]) for k in sorted(cell)))
-    {"purify": _chan_purify, "kraus": _chan_kraus, "measure": _chan_measure, "counts": _chan_counts, "dephase": _chan_dephase}[t](acc, cell)
+    {"purify": _chan_purify, "kraus": _chan_kraus, "measure": _chan_measure, "counts": _chan_counts, "dephase": _chan_dephase, "neardeg": _chan_neardeg}[t](acc, cell)
     return acc.res
 
 
@@ -1155,6 +1258,11 @@ def chan_cells(tier):
                 cells.append({"t": "dephase", "D": D, "kind": kind})
         for spec in sorted(_lams(D)):
             cells.append({"t": "measure", "D": D, "spec": spec})
+        if D >= 3:
+            for ti in range(len(ND_TOLS)):
+                for fi in range(len(ND_FACTORS)):
+                    if (1e-12 if ND_TOLS[ti] is None else ND_TOLS[ti]) * ND_FACTORS[fi] <= 0.05:  # still a near-degenerate doublet
+                        cells.append({"t": "neardeg", "D": D, "tol": ti, "f": fi})
     dl = [d for d in dims_lists((1, 2, 3), maxlen=3, maxD=12 if quick else 18) if _prod(d) >= 2]
     if not quick:
         dl += [(2, 2, 2, 2), (2, 1, 2, 3), (4, 2), (2, 4), (4, 4)]
@@ -1312,6 +1420,151 @@ def _dec_corr(acc, cell):
                     else:
                         acc.n += 1
         acc.emit("pauli_correlations", nontrivial=True, outcome="pauli_correlations")
+
+
+def _reuse_seq(dims, kind):
+    """states a precomputed function is called on, in this order: the cell's
+    state, two states of other kinds, then the first two AGAIN (a returned
+    function must be reusable and carry no state between calls)"""
+    others = [k for k in ("ghz", "full", "gen") if k != kind][:2]
+    names = [kind, others[0], others[1], kind, others[0]]
+    out = []
+    for k, nm in enumerate(names):
+        isk = nm in PURE
+        x = _ket(dims, nm, ("reuse",)) if isk else _rho(dims, nm, ("reuse",))
+        out.append(("%d:%s" % (k, nm), _as(x, "ket" if isk else "dop"), R.dop(x) if isk else x))
+    return out
+
+
+def _corr_ref(rho, dims, A, a, B, b):
+    ea, eb = ref.embed(A, dims, [a]), ref.embed(B, dims, [b])
+    return float(np.real(np.trace(ea @ eb @ rho) - np.trace(ea @ rho) * np.trace(eb @ rho)))
+
+
+def _seq_check(acc, sub, entry, fn, seq, exps, tol=1e-9, **extra):
+    """call ONE returned function on every state of the sequence"""
+    for k, ((nm, o, _), e) in enumerate(zip(seq, exps)):
+        call = "first" if k == 0 else "repeat"
+        st = "%s|call %s" % (sub, nm)
+        try:
+            g = fn(o)
+            if isinstance(g, (tuple, list)):
+                g = [float(np.real(_num(v))) for v in g]
+                good = len(g) == len(e) and all(abs(u - v) <= tol * max(1.0, abs(v)) for u, v in zip(g, e))
+            else:
+                g = float(np.real(_num(g)))
+                good = abs(g - e) <= tol * max(1.0, abs(e))
+        except Exception as ex:
+            acc.bad(st, entry, "exc:" + type(ex).__name__, "call %d of the returned function raised %s: %s" % (k, type(ex).__name__, str(ex)[:120]), call=call, **extra)
+            continue
+        if not good:
+            acc.bad(st, entry, "mismatch", "call %d of the returned function gave %r, direct definition %r" % (k, g, e), call=call, **extra)
+        else:
+            acc.n += 1
+
+
+def _dec_reuse(acc, cell):
+    """every precomp_func=True entry point: the returned function (or tuple
+    of functions) is called five times (three different states, two of them
+    twice), functions built for different arguments are all built BEFORE any
+    is called, and every call must equal the direct definition"""
+    qu = _qu()
+    dims = [int(d) for d in cell["dims"]]
+    kind = cell["kind"]
+    n = len(dims)
+    seq = _reuse_seq(dims, kind)
+    allq = all(d == 2 for d in dims)
+    pairs = [(a, b) for a, b in itertools.permutations(range(n), 2) if dims[a] > 1 and dims[b] > 1]
+    # ---- correlation -------------------------------------------------------
+    built = []
+    for a, b in pairs:
+        A, B = _herm_op(dims[a], ("A", a)), _herm_op(dims[b], ("B", b))
+        for sparse in (None, True):
+            Aq, Bq = (qu.qarray(A), qu.qarray(B)) if not sparse else (_sp().csr_matrix(A), _sp().csr_matrix(B))
+            okc, fn = acc.call("correlation|%d,%d|sparse=%s|build" % (a, b, sparse), "correlation", lambda: qu.correlation(None, Aq, Bq, a, b, dims=dims, sparse=sparse, precomp_func=True), form="none", opt="precomp")
+            if okc:
+                built.append(("correlation|%d,%d|sparse=%s" % (a, b, sparse), fn, [_corr_ref(r, dims, A, a, B, b) for _, _, r in seq]))
+    for sub, fn, exps in built:
+        _seq_check(acc, sub, "correlation", fn, seq, exps, opt="precomp")
+    # direct evaluation on every state of the sequence as well
+    for a, b in pairs[:2]:
+        A, B = _herm_op(dims[a], ("A", a)), _herm_op(dims[b], ("B", b))
+        for nm, o, r in seq[:3]:
+            acc.val("correlation|%d,%d|direct|%s" % (a, b, nm), "correlation", lambda: qu.correlation(o, qu.qarray(A), qu.qarray(B), a, b, dims=dims), _corr_ref(r, dims, A, a, B, b))
+    acc.emit("correlation reuse", nontrivial=True, outcome="reuse:correlation")
+    # ---- pauli_correlations: all four option combinations ---------------------
+    if allq and n >= 2:
+        built = []
+        for a, b in pairs:
+            for ss in (("xx", "yy", "zz"), ("xz", "zy", "yx", "ix")):
+                exps = [[_corr_ref(r, dims, R.PAULIS[s1.upper()], a, R.PAULIS[s2.upper()], b) for s1, s2 in ss] for _, _, r in seq]
+                tag = "pauli_correlations|%d,%d|%s" % (a, b, "".join(ss))
+                for k, (nm, o, r) in enumerate(seq[:3]):
+                    acc.val("%s|direct|sum_abs|%s" % (tag, nm), "pauli_correlations", lambda: qu.pauli_correlations(o, ss=ss, sysa=a, sysb=b, sum_abs=True), sum(abs(v) for v in exps[k]), opt="sum_abs")
+                    okc, g = acc.call("%s|direct|%s" % (tag, nm), "pauli_correlations", lambda: qu.pauli_correlations(o, ss=ss, sysa=a, sysb=b), opt="none")
+                    if okc:
+                        g = [float(np.real(_num(v))) for v in g]
+                        if len(g) != len(exps[k]) or max(abs(u - v) for u, v in zip(g, exps[k])) > 1e-9:
+                            acc.bad("%s|direct|%s" % (tag, nm), "pauli_correlations", "mismatch", "got %s, reference %s" % (g, exps[k]), opt="none")
+                        else:
+                            acc.n += 1
+                okc, fsum = acc.call(tag + "|sum_abs+precomp|build", "pauli_correlations", lambda: qu.pauli_correlations(seq[0][1], ss=ss, sysa=a, sysb=b, sum_abs=True, precomp_func=True), opt="sum_abs+precomp")
+                if okc:
+                    built.append((tag + "|sum_abs+precomp", fsum, [sum(abs(v) for v in e) for e in exps], "sum_abs+precomp"))
+                okc, fns = acc.call(tag + "|precomp|build", "pauli_correlations", lambda: qu.pauli_correlations(seq[0][1], ss=ss, sysa=a, sysb=b, precomp_func=True), opt="precomp")
+                if okc:
+                    try:
+                        fns = tuple(fns)
+                        if len(fns) != len(ss):
+                            raise TypeError("expected %d functions, got %d" % (len(ss), len(fns)))
+                        built.append((tag + "|precomp", (lambda fs: (lambda st: [f(st) for f in fs]))(fns), exps, "precomp"))
+                        # the same functions again, in reverse order
+                        built.append((tag + "|precomp-reversed", (lambda fs: (lambda st: [f(st) for f in reversed(fs)][::-1]))(fns), exps, "precomp"))
+                    except Exception as ex:
+                        acc.bad(tag + "|precomp|build", "pauli_correlations", "type", str(ex)[:120], opt="precomp")
+        for sub, fn, exps, opt in built:
+            _seq_check(acc, sub, "pauli_correlations", fn, seq, exps, opt=opt)
+        acc.emit("pauli_correlations reuse", nontrivial=True, outcome="reuse:pauli_correlations")
+    # ---- qid ---------------------------------------------------------------------
+    inds = [i for i in range(n) if dims[i] == 2]
+    if inds:
+        exps = []
+        for _, _, r in seq:
+            e = []
+            for i in inds:
+                t2 = 0.0
+                for s_ in "XYZ":
+                    op = ref.embed(R.PAULIS[s_], dims, [i])
+                    t2 += float(np.linalg.svd(r @ op - op @ r, compute_uv=False)[0]) ** 2
+                e.append(t2)
+            exps.append(e)
+        built = []
+        for sc in (True, False):
+            okc, fn = acc.call("qid|sparse_comp=%s|build" % sc, "qid", lambda: qu.qid(None, dims, inds, precomp_func=True, sparse_comp=sc), opt="precomp")
+            if okc:
+                built.append(("qid|sparse_comp=%s" % sc, fn))
+        for sub, fn in built:
+            _seq_check(acc, sub, "qid", fn, seq, exps, tol=1e-7, opt="precomp")
+        acc.emit("qid reuse", nontrivial=True, outcome="reuse:qid")
+    # ---- one_way_classical_information (two qubits) ----------------------------------
+    if dims == [2, 2]:
+        povms = [
+            ("z", [np.diag([1.0, 0.0]).astype(complex), np.diag([0.0, 1.0]).astype(complex)]),
+            ("gen", [R.bloch_projector(1.1, 0.7), np.eye(2) - R.bloch_projector(1.1, 0.7)]),
+            ("trine", [(2.0 / 3.0) * R.bloch_projector(t, 0.0) for t in (0.0, 2 * np.pi / 3, 4 * np.pi / 3)]),
+        ]
+        pseq = [povms[0], povms[1], povms[2], povms[0], povms[1]]
+        fns = []
+        for nm, o, r in seq[:3]:
+            if o.shape[1] == 1:
+                o = _as(r, "dop")
+            okc, fn = acc.call("owci|%s|build" % nm, "one_way_classical_information", lambda: qu.one_way_classical_information(o, None, precomp_func=True), opt="precomp_func")
+            if okc:
+                fns.append((nm, fn, r))
+        for k, (pn, povm) in enumerate(pseq):  # round-robin over the three closures
+            for nm, fn, r in fns:
+                acc.val("owci|%s|call %d:%s" % (nm, k, pn), "one_way_classical_information", lambda: fn([qu.qarray(e) for e in povm]), R.owci(r, povm), opt="precomp_func", call="first" if k == 0 else "repeat")
+        acc.emit("owci reuse", nontrivial=True, outcome="reuse:owci")
 
 
 def _ent_ref(name, rho, dims):
@@ -1481,7 +1734,7 @@ def _dec_pred(acc, cell):
 def decomp_cell(cell, common):
     t = cell["t"]
     acc = _Acc(" ".join("%s=%s" % (k, cell[k]) for k in sorted(cell)))
-    {"pauli": _dec_pauli, "bell": _dec_bell, "corr": _dec_corr, "ecm": _dec_ecm, "qid": _dec_qid, "pred": _dec_pred}[t](acc, cell)
+    {"pauli": _dec_pauli, "bell": _dec_bell, "corr": _dec_corr, "ecm": _dec_ecm, "qid": _dec_qid, "pred": _dec_pred, "reuse": _dec_reuse}[t](acc, cell)
     return acc.res
 
 
@@ -1502,6 +1755,8 @@ def decomp_cells(tier):
             cells.append({"t": "corr", "dims": list(dims), "kind": kind})
         for kind in ("gen", "full"):
             cells.append({"t": "qid", "dims": list(dims), "kind": kind})
+        for kind in ("gen", "full", "ghz"):
+            cells.append({"t": "reuse", "dims": list(dims), "kind": kind})
     for n in (2, 3, 4) if quick else (2, 3, 4, 5, 6):
         for kind in ("gen", "ghz", "full", "r2"):
             if n >= 5 and kind == "full":
@@ -1550,6 +1805,7 @@ def lazy_cell(cell, common):
             acc.mat(tag + "|matvec", "lazy_ptr_linop", lambda: np.asarray(L @ vec).reshape(-1), exp @ vec, form=f, order=srt)
             acc.mat(tag + "|matmat", "lazy_ptr_linop", lambda: np.asarray(L @ blk), exp @ blk, form=f, order=srt)
             acc.mat(tag + "|rmatvec", "lazy_ptr_linop", lambda: np.asarray(L.H @ vec).reshape(-1), exp.conj().T @ vec, form=f, order=srt)
+            acc.mat(tag + "|matvec-again", "lazy_ptr_linop", lambda: np.asarray(L @ vec).reshape(-1), exp @ vec, form=f, order=srt)
         acc.emit("lazy_ptr sysa=%s" % (sa,), nontrivial=1 < dA < _prod(dims), outcome="lazy_ptr:" + ("sorted" if list(sa) == sorted(sa) else "unsorted"))
     for sa, sb in _ordered_pairs(n) if n >= 2 else []:
         rab, dab, aloc = R.reduced_pair(rho, dims, sa, sb)
@@ -1625,6 +1881,8 @@ def run(ctx):
         "sparse inputs are not combined with dimension-1 subsystems (C15 known finding: dim_compress unit run)",
         "sqrt-based quantities compared at 2e-6 (eigenvalue noise 1e-17 becomes 3e-9 under sqrt) or through their squares",
         "measure() is only asked to collapse onto outcomes of probability > 1e-3",
+        "near-degenerate observables: splitting / tol in (0.1, 10, 1e3, 2e6) only (10x margin to the documented absolute window); generic eigenbases only for splittings >= 1e-6 (eigenvector mixing 1e-16/splitting), smaller ones with an exactly diagonal operator or the (el, ev) tuple form",
+        "every precomp_func=True function is called on 5 states (3 distinct, 2 repeated), all functions of a cell are built before any is called",
         "quantum_discord is compared with the minimum over PROJECTIVE measurements on subsystem B (the set quimb optimises over)",
         "pauli_correlations(precomp_func=True) is given the state as p (its docstring says p is ignored, but the qubit count is inferred from it; p=None raises AttributeError - noted, not asserted)",
         "lazy_ptr_linop keeps the subsystems in the ORDER given in sysa (its dense form is the partial trace with that subsystem order); lazy_ptr_ppt_linop keeps A and B in ascending order and transposes A",
